@@ -35,6 +35,9 @@ def order (h : Hdr) : UInt8 := (h.fc1 >>> 7) &&& 1
 def fragNum (h : Hdr) : UInt8 := h.sc0 &&& 0x0f
 /-- `dot11->wep(0)` -/
 def clearWep (h : Hdr) : Hdr := { h with fc1 := h.fc1 &&& 0xBF }
+/-- +HTC: the frame is a QoS data frame with the Order bit set, so that on the air a 4-octet HT Control field follows
+    the QoS control field.  libtins knows no such field: `Dot11QoSData` takes those octets for the start of the body. -/
+def htc (h : Hdr) : Bool := h.qos.isSome && h.order != 0
 /-- `Dot11QoSData::qos_control()` (little-endian 16-bit value) -/
 def qosControl (h : Hdr) : Nat := match h.qos with | some (a, b) => a.toNat + 256 * b.toNat | none => 0
 
